@@ -29,9 +29,9 @@ KERNELS = ['Gen/Window.v: win_guard', 'Gen/Window.v: win_trim_cond', 'Gen/Window
            'Gen/Window.v: st_guard/tr_guard/src_guard', 'Gen/Window.v: tr_step_order/st_step_order/st_state_index_from_end', 'Gen/Window.v: tw_guard/tw_step_order']
 SHARD = 250
 
-WINDOW, COUNT, STATE, BOTH, COUNT_STATE, WIN_OVER, COUNT_OVER = 0, 1, 2, 3, 4, 5, 6
+WINDOW, COUNT, STATE, BOTH, COUNT_STATE, WIN_OVER, COUNT_OVER, SIBLINGS = 0, 1, 2, 3, 4, 5, 6, 7
 KIND_NAMES = ['window', 'countByWindow', 'updateStateByKey', 'window+updateStateByKey', 'countByWindow+updateStateByKey',
-              'window-over', 'countByWindow-over']
+              'window-over', 'countByWindow-over', 'sibling-views']
 # parents of a window over a derived stream (case component pv)
 PV_NAMES = ['map', 'filter', 'flatMap', 'mapValues', 'updateStateByKey', 'union', 'transform']
 PV_KEYED = (3, 4)
@@ -101,20 +101,27 @@ CLASS_CODE = {_ds.DStream: 0, _ds.TransformedDStream: 1, _ds.WindowedDStream: 2,
 
 
 def _unpack(c):
-    """(kind, w, s, ucode, k, batches, times, pv): pv (parent variant of kinds 5/6) defaults to 0."""
-    return tuple(c) + (0,) if len(c) == 7 else tuple(c)
+    """(kind, w, s, ucode, k, batches, times, pv, default, views): pv (parent variant of kinds 5/6) defaults to 0, default
+    (the default= batch of queueStream) to None, views (kind 7: [(count?, w, s), ...]) to []."""
+    c = tuple(c)
+    return c + ((0,) if len(c) < 8 else ()) + ((None, []) if len(c) < 10 else ())
 
 
 def _is_rdd_entry(e):
-    """A queue entry is a plain list, or (form, n, data): an RDD sc.parallelize(data, n) [.map(INC) | .filter(EVEN)]."""
+    """A queue entry is None (the producer marks an idle interval), a plain list, or (form, n, data): an RDD
+    sc.parallelize(data, n) [form 1 .map(INC) | form 2 .filter(EVEN)]; form 9: the very same object as the previous entry."""
     return isinstance(e, tuple)
 
 
-def _entry_data(e):
-    """What the interval's RDD holds, in partition order then position."""
+def _entry_data(e, prev=None):
+    """What the interval's RDD holds, in partition order then position (None for an idle entry)."""
+    if e is None:
+        return None
     if not _is_rdd_entry(e):
         return list(e)
     form, _, data = e
+    if form == 9:
+        return prev
     if form == 1:
         return [INC(x) for x in data]
     if form == 2:
@@ -122,7 +129,27 @@ def _entry_data(e):
     return list(data)
 
 
+def _history(c):
+    """(data of every queue entry (None = idle), data of the default batch (None = no default))."""
+    batches, default = _unpack(c)[5], _unpack(c)[8]
+    out, prev = [], None
+    for e in batches:
+        prev = _entry_data(e, prev)
+        out.append(prev)
+    return (out, _entry_data(default))
+
+
+def _queue_items(sc, entries):
+    """The objects put into the queue: a form-9 entry is the SAME object as the one before it."""
+    out = []
+    for e in entries:
+        out.append(out[-1] if _is_rdd_entry(e) and e[0] == 9 else _entry_queue_item(sc, e))
+    return out
+
+
 def _entry_queue_item(sc, e):
+    if e is None:
+        return None
     if not _is_rdd_entry(e):
         return list(e)
     form, n, data = e
@@ -135,8 +162,14 @@ def _entry_queue_item(sc, e):
 
 
 def kind(c):
-    knd, w, s, uc, k, batches, times, pv = _unpack(c)
+    knd, w, s, uc, k, batches, times, pv, default, views = _unpack(c)
     name = KIND_NAMES[knd]
+    if default is not None:
+        name += '/default'
+    if any(e is None for e in batches):
+        name += '/idle'
+    if any(_is_rdd_entry(e) and e[0] == 9 for e in batches):
+        name += '/same-object'
     if knd in (WIN_OVER, COUNT_OVER):
         name += '/' + PV_NAMES[pv]
     if knd in (STATE, BOTH, COUNT_STATE) or (knd in (WIN_OVER, COUNT_OVER) and pv == 4):
@@ -167,13 +200,14 @@ def _durations(c):
 
 
 def impl(c):
-    knd, w, s, uc, k, batches, times, pv = _unpack(c)
+    knd, w, s, uc, k, batches, times, pv, default, views = _unpack(c)
     d, wd, sd = _durations(c)
     with VClock() as vc:
         sc = pysparkling.Context()
         ssc = StreamingContext(sc, d)
         log = []
-        src = ssc.queueStream([_entry_queue_item(sc, b) for b in batches])
+        dflt = _entry_queue_item(sc, default)
+        src = ssc.queueStream(_queue_items(sc, batches), default=dflt)
         if knd == WINDOW:
             x = src.window(wd, sd)
             for j in range(k):
@@ -205,7 +239,7 @@ def impl(c):
             elif pv == 4:
                 parent = src.updateStateByKey(U[uc])
             elif pv == 5:
-                parent = src.union(ssc.queueStream([_entry_queue_item(sc, b) for b in batches[1:]]))
+                parent = src.union(ssc.queueStream(_queue_items(sc, batches)[1:], default=_entry_queue_item(sc, default)))
             elif pv == 6:
                 parent = src.transform(lambda rdd: rdd.map(INC))
             else:
@@ -214,6 +248,11 @@ def impl(c):
             for j in range(k):
                 x.foreachRDD(_capture(log, j, False))
             parent.foreachRDD(_capture(log, k, False))      # what the parent emits, as emitted
+        elif knd == SIBLINGS:
+            for j, (cnt, vw, vs) in enumerate(views):
+                slide = None if (vs == 1 and vw % 2 == 0) else vs * d
+                x = src.countByWindow(vw * d, slide) if cnt else src.window(vw * d, slide)
+                x.foreachRDD(_capture(log, j, False))
         else:
             raise ValueError('kind')
         ssc.start()
@@ -242,23 +281,35 @@ def _intervals(times):
     return out
 
 
-def _batch(batches, n):
-    """The batch of interval n (1-based), in the order of the interval's RDD (partition order, then position); an
-    exhausted queue yields nothing."""
-    return _entry_data(batches[n - 1]) if n - 1 < len(batches) else []
+def _interval(hist, n):
+    """The data of interval n (1-based): the n-th queue entry (None: an idle entry), the default once the queue has run dry
+    (None: no default).  Whatever the identity of the batch object, every interval counts."""
+    entries, default = hist
+    return entries[n - 1] if n - 1 < len(entries) else default
 
 
-def _window_expected(batches, w, n):
-    return [x for i in range(max(1, n - w + 1), n + 1) for x in _batch(batches, i)]
+def _batch(hist, n):
+    """The batch of interval n, in the order of the interval's RDD (partition order, then position)."""
+    return list(_interval(hist, n) or [])
 
 
-def _state_expected(batches, uc, n):
+def _all_empty(hist, w, n):
+    """Every interval of the window ending at n yielded an EmptyRDD (idle entry / queue dry without default): count() of
+    their union may then be empty instead of [0]."""
+    return all(_interval(hist, i) is None for i in range(max(1, n - w + 1), n + 1))
+
+
+def _window_expected(hist, w, n):
+    return [x for i in range(max(1, n - w + 1), n + 1) for x in _batch(hist, i)]
+
+
+def _state_expected(hist, uc, n):
     """Per key seen in intervals 1..n: the update function folded over the key's value lists from the key's first
     interval to n, [] when absent, starting from None."""
     u = U[uc]
     state = {}
     for i in range(1, n + 1):
-        b = _batch(batches, i)
+        b = _batch(hist, i)
         for key in sorted(set(state) | {kv[0] for kv in b}):
             vs = [kv[1] for kv in b if kv[0] == key]
             state[key] = u(vs, state.get(key))
@@ -272,7 +323,9 @@ def _of(entries, j):
 def _oracle_over(c, r):
     """window / countByWindow over a derived stream: at every emitting interval the window holds exactly the in-order
     concatenation of the parent's most recent w batches AS THE PARENT EMITTED THEM (consumer k captures the parent)."""
-    knd, w, s, uc, k, batches, times, pv = _unpack(c)
+    knd, w, s, uc, k, batches, times, pv, default, views = _unpack(c)
+    hist = _history(c)
+    hist2 = (hist[0][1:], hist[1])      # the second queue of the union variant
     _, ticks = r
     site = KIND_NAMES[knd] + ':' + PV_NAMES[pv]
     parent = {}    # interval -> what the parent emitted
@@ -286,7 +339,7 @@ def _oracle_over(c, r):
                     + (f'; callback raised {err}' if err else ''))
         parent[n] = got_p[0]
         if pv == 4:
-            want = _state_expected(batches, uc, n)
+            want = _state_expected(hist, uc, n)
             if sorted(parent[n], key=lambda kv: kv[0]) != want:
                 return (f'updateStateByKey:state:{U_NAMES[uc]}', f'interval {n}: the state stream emitted {parent[n]!r}, expected {want!r}')
         for j in range(k):
@@ -295,7 +348,7 @@ def _oracle_over(c, r):
                 win = [x for i in range(max(1, n - w + 1), n + 1) for x in parent[i]]
                 if knd == COUNT_OVER:
                     # only a union of two exhausted queue sources is an EmptyRDD, whose count() is empty
-                    all_exhausted = pv == 5 and n - min(w, n) >= len(batches)
+                    all_exhausted = pv == 5 and _all_empty(hist, w, n) and _all_empty(hist2, w, n)
                     ok = got == [[len(win)]] or (all_exhausted and got == [[]])
                     want = [len(win)]
                 else:
@@ -316,12 +369,50 @@ def _oracle_over(c, r):
     return None
 
 
+def _oracle_siblings(c, r):
+    """Sibling windowed views of one source: EACH view (consumer j), independently of the others, emits every s_j intervals
+    exactly the concatenation (count: the number of elements) of the source's most recent w_j batches."""
+    knd, w, s, uc, k, batches, times, pv, default, views = _unpack(c)
+    hist = _history(c)
+    _, ticks = r
+    prev = {}
+    for (entries, err), n in zip(ticks, _intervals(times)):
+        if n is None:
+            continue
+        for j, (cnt, vw, vs) in enumerate(views):
+            got = _of(entries, j)
+            site = f'sibling-views:{"countByWindow" if cnt else "window"}'
+            if n % vs == 0:
+                win = _window_expected(hist, vw, n)
+                if cnt:
+                    ok = got == [[len(win)]] or (_all_empty(hist, vw, n) and got == [[]])
+                    want = [len(win)]
+                else:
+                    ok = got == [win]
+                    want = win
+                if not ok:
+                    return (f'{site}:emission:' + ('slide>1' if vs > 1 else 'slide=1'),
+                            f'interval {n}: view {j} = {"countByWindow" if cnt else "window"}({vw}, {vs}) of the views {views!r} '
+                            f'captured {got!r}, expected one capture {want!r}' + (f'; callback raised {err}' if err else ''))
+                prev[j] = got[0]
+            elif j not in prev:
+                if any(x is not None for x in got):
+                    return (f'{site}:early-emission', f'interval {n}: view {j} ({vw}, {vs}) captured {got!r} before interval {vs}')
+            elif got and got != [prev[j]]:
+                return (f'{site}:changed-between-emissions',
+                        f'interval {n}: view {j} ({vw}, {vs}) captured {got!r}, last emission was {prev[j]!r}')
+    return None
+
+
 def oracle(c, r):
-    knd, w, s, uc, k, batches, times, pv = _unpack(c)
+    knd, w, s, uc, k, batches, times, pv, default, views = _unpack(c)
     if isinstance(r, Err):
         return (f'{KIND_NAMES[knd]}:harness-error:{r.name}', 'the program could not be run')
     if knd in (WIN_OVER, COUNT_OVER):
         return _oracle_over(c, r)
+    if knd == SIBLINGS:
+        return _oracle_siblings(c, r)
+    hist = _history(c)
     _, ticks = r
     iv = _intervals(times)
     site = KIND_NAMES[knd]
@@ -336,9 +427,9 @@ def oracle(c, r):
             for j in range(k):
                 got = _of(entries, j)
                 if emitting:
-                    win = _window_expected(batches, w, n)
+                    win = _window_expected(hist, w, n)
                     if knd in (COUNT, COUNT_STATE):
-                        all_exhausted = n - min(w, n) >= len(batches)
+                        all_exhausted = _all_empty(hist, w, n)
                         ok = got == [[len(win)]] or (all_exhausted and got == [[]])
                         want = [len(win)]
                     else:
@@ -359,7 +450,7 @@ def oracle(c, r):
                         return (f'{wsite}:changed-between-emissions',
                                 f'interval {n} (w={w}, s={s}, consumer {j}): captured {got!r}, last emission was {prev[j]!r}')
         if knd in (STATE, BOTH, COUNT_STATE):
-            want = _state_expected(batches, uc, n)
+            want = _state_expected(hist, uc, n)
             for j in (range(k) if knd == STATE else range(k, 2 * k)):
                 got = _of(entries, j)
                 if got != [want]:
@@ -370,7 +461,7 @@ def oracle(c, r):
 
 
 def nontrivial(c, r):
-    return len(c[6]) >= 2 and any(len(_entry_data(b)) > 0 for b in c[5])
+    return len(c[6]) >= 2 and (any(b for b in _history(c)[0]) or bool(_history(c)[1]))
 
 
 # ---------------------------------------------------------------------------------------------------------------
@@ -437,7 +528,7 @@ def _spread_keyed_batch(rng):
 
 def _random_case(rng):
     knd = rng.choice([WINDOW, WINDOW, WINDOW, COUNT, COUNT, COUNT, STATE, STATE, STATE, STATE, BOTH, BOTH, COUNT_STATE,
-                      WIN_OVER, WIN_OVER, WIN_OVER, COUNT_OVER])
+                      WIN_OVER, WIN_OVER, WIN_OVER, COUNT_OVER, SIBLINGS, SIBLINGS, SIBLINGS])
     nt = rng.randint(1, 8)
     nb = max(0, nt + rng.choice([-3, -2, -1, 0, 0, 0, 1]))
     w, s, uc, k = rng.randint(1, 4), rng.randint(1, 3), rng.randrange(NU), rng.randint(1, 3)
@@ -447,9 +538,51 @@ def _random_case(rng):
     if keyed:
         batches = [_spread_keyed_batch(rng) if b and rng.random() < 0.25 else b for b in batches]
     batches = _as_rdd_entries(rng, [b for b in batches], keyed) if rng.random() < 0.6 else batches
+    default, views = None, []
+    special = rng.random()
+    if special < 0.3:
+        # a default batch (handed out, converted once, whenever the queue is empty), the run going on past the queue's end
+        d = (_keyed_batches(rng, 1) if keyed else _plain_batches(rng, 1))[0] or ([(0, 1)] if keyed else [1])
+        default = (0, rng.randint(1, 3), d) if rng.random() < 0.5 else d
+        nb = min(nb, max(0, nt - rng.randint(2, 4)))
+        batches = batches[:nb]
+    if special < 0.45 and batches:
+        # explicit idle intervals: None entries (an EmptyRDD, not the default)
+        for _ in range(rng.randint(1, 2)):
+            batches = list(batches)
+            batches.insert(rng.randrange(len(batches) + 1), None)
+    if 0.25 < special < 0.6:
+        # a producer puts the same RDD object into the queue two or three times
+        idx = [i for i, b in enumerate(batches) if isinstance(b, tuple) and b[0] != 9]
+        if idx:
+            i = rng.choice(idx)
+            batches = batches[:i + 1] + [(9, 0, [])] * rng.randint(1, 2) + batches[i + 1:]
+    if knd == SIBLINGS:
+        views = _random_views(rng)
+    if default is not None or knd == SIBLINGS:
+        return (knd, w, s, uc, k, batches, _times(rng, nt), pv, default, views)
     if knd in (WIN_OVER, COUNT_OVER):
         return (knd, w, s, uc, k, batches, _times(rng, nt), pv)
     return (knd, w, s, uc, k, batches, _times(rng, nt))
+
+
+def _random_views(rng):
+    """Two or three windowed views of one source: same length with different slides (mostly), same slide with different
+    lengths, identical pairs; window() and countByWindow() mixed; in either order."""
+    mode = rng.random()
+    n = rng.choice([2, 2, 3])
+    if mode < 0.6:
+        w = rng.randint(1, 4)
+        slides = rng.sample([1, 2, 3], n)
+        views = [(rng.random() < 0.5, w, s) for s in slides]
+    elif mode < 0.8:
+        s = rng.randint(1, 3)
+        views = [(rng.random() < 0.5, w, s) for w in rng.sample([1, 2, 3, 4], n)]
+    else:
+        v = (rng.random() < 0.5, rng.randint(1, 4), rng.randint(1, 3))
+        views = [v] * n
+    rng.shuffle(views)
+    return views
 
 
 DOCTESTS = [
@@ -479,9 +612,14 @@ def _tuplify(c):
         return [tuple(x) if isinstance(x, (list, tuple)) else x for x in b]
 
     def entry(b):
+        if b is None:
+            return None
         return (b[0], b[1], elems(b[2])) if isinstance(b, tuple) else elems(b)
     c = tuple(c)
-    return c[:5] + ([entry(b) for b in c[5]], list(c[6])) + c[7:]
+    rest = c[7:]
+    if len(rest) >= 3:
+        rest = (rest[0], entry(rest[1]), [tuple(v) for v in rest[2]])
+    return c[:5] + ([entry(b) for b in c[5]], list(c[6])) + rest
 
 
 def generate(rng, tier):
@@ -539,6 +677,37 @@ def generate(rng, tier):
                 cases.append((WIN_OVER, w, s, uc, 1 + (w + s) % 2, b, [1, 2, 3, 4, 5, 6, 7, 8], pv))
                 if (w + s) % 2 == 0 or pv == 5:
                     cases.append((COUNT_OVER, w, s, uc, 1, b, [1, 2, 3, 4, 5, 6, 7, 8], pv))
+    # round 5 (a): the SAME RDD object at consecutive intervals -- a default batch running 3+ intervals past the end of the
+    #     queue (converted once), and one RDD object put into the queue twice; state, windows, a window over the state
+    T9 = [1, 2, 3, 4, 5, 6, 7, 8, 9]
+    for uc in range(NU):
+        for dflt in ([(0, 1), (1, 2), (0, 3)], (0, 2, [(1, 5), (0, None), (1, 7)])):
+            cases.append((STATE, 1, 1, uc, 1 + uc % 2, [[(0, 4)], [(2, 6)]], T9[:6], 0, dflt, []))
+        cases.append((STATE, 1, 1, uc, 1, [[(0, 4)], (0, 2, [(1, 5), (0, 6), (1, 7)]), (9, 0, []), (9, 0, []), [(2, 8)]], T9[:7], 0, None, []))
+        cases.append((WIN_OVER, 2, 1 + uc % 2, uc, 1, [[(0, 4)], (0, 2, [(1, 5), (0, 6)]), (9, 0, [])], T9[:7], 4, [(0, 1), (1, 2)], []))
+    for knd in (WINDOW, COUNT):
+        for w, s in ((1, 1), (2, 1), (3, 2), (2, 3), (4, 1)):
+            cases.append((knd, w, s, 0, 1, [[1, 2], [3]], T9, 0, [7, 8], []))
+            cases.append((knd, w, s, 0, 2, [(0, 3, [1, 2, 3]), (9, 0, []), (9, 0, []), [4]], T9[:7], 0, (1, 2, [5, 6]), []))
+    # round 5 (c): a None entry (explicit idle interval: an EMPTY batch, not the default) together with a default
+    for knd in (WINDOW, COUNT):
+        for w, s in ((1, 1), (2, 1), (3, 1), (2, 2), (3, 2)):
+            cases.append((knd, w, s, 0, 1, [[1], None, [2, 3], None, None], T9, 0, [9], []))
+            cases.append((knd, w, s, 0, 1, [None, None, [1]], T9[:6], 0, None, []))
+    for uc in range(NU):
+        cases.append((STATE, 1, 1, uc, 1, [[(0, 1), (1, 2)], None, [(1, 3)], None], T9[:7], 0, [(2, 4), (0, 5)], []))
+        cases.append((COUNT_STATE, 2, 2, uc, 1, [[(0, 1)], None, None, [(0, 2)]], T9[:7], 0, [(1, 1)], []))
+    # round 5 (b): sibling windowed views of one source -- same length / different slides in either order, window() next to
+    #     countByWindow(), same slide / different lengths and identical pairs as controls
+    six9 = [[1], [2, 3], [], [4], [5, 6], [7]]
+    sib = [[(False, 2, 1), (True, 2, 2)], [(True, 2, 2), (False, 2, 1)], [(False, 3, 3), (False, 3, 1)],
+           [(False, 3, 1), (False, 3, 3)], [(False, 2, 1), (False, 2, 2), (False, 2, 3)], [(True, 3, 2), (True, 3, 1)],
+           [(False, 1, 2), (True, 1, 1), (False, 1, 3)], [(False, 4, 2), (True, 4, 3)],
+           [(False, 2, 2), (False, 3, 2)], [(True, 1, 1), (True, 4, 1), (False, 2, 1)], [(False, 2, 2), (False, 2, 2)],
+           [(True, 3, 1), (True, 3, 1)], [(True, 2, 1), (False, 2, 1)]]
+    for vs in sib:
+        cases.append((SIBLINGS, 1, 1, 0, 1, six9, T9[:8], 0, None, vs))
+        cases.append((SIBLINGS, 1, 1, 0, 1, [[1], None, (0, 2, [2, 3]), (9, 0, [])], T9[:8], 0, [9], vs))
     # the history of the repaired defect 7e069b7 (regression; also in corpus/C11) and its variant with slide 1
     cases.append((COUNT_STATE, 2, 2, 0, 1, [[(0, 1)], [(0, 2)], [(0, 3)], [(0, 4)]], [1, 2, 3, 4]))
     cases.append((COUNT_STATE, 2, 1, 0, 1, [[(0, 1)], [(0, 2)], [(0, 3)], [(0, 4)]], [1, 2, 3, 4]))
@@ -566,27 +735,46 @@ def generate(rng, tier):
 
 
 def shrink_candidates(c):
-    knd, w, s, uc, k, batches, times, pv = _unpack(c)
-    tail = (pv,) if len(c) == 8 else ()
+    knd, w, s, uc, k, batches, times, pv, default, views = _unpack(c)
+    n_extra = len(c) - 7
 
-    def mk(knd=knd, w=w, s=s, uc=uc, k=k, batches=batches, times=times, tail=tail):
+    def mk(knd=knd, w=w, s=s, uc=uc, k=k, batches=batches, times=times, default=default, views=views):
+        tail = (pv, default, views) if (n_extra >= 3 or default is not None or views) else ((pv,) if n_extra >= 1 else ())
         return (knd, w, s, uc, k, batches, times) + tail
     if len(times) > 1:
         yield mk(times=times[:-1])
     if k > 1:
         yield mk(k=1)
         yield mk(k=k - 1)
-    if len(batches) > 0:
+    if len(views) > 1:
+        for i in range(len(views)):
+            yield mk(views=views[:i] + views[i + 1:])
+    if default is not None:
+        yield mk(default=None)
+        if _is_rdd_entry(default):
+            yield mk(default=_entry_data(default))
+        elif len(default) > 1:
+            yield mk(default=default[:-1])
+    if len(batches) > 0 and not (len(batches) > 1 and _is_rdd_entry(batches[-1]) and batches[-1][0] == 9 and False):
         yield mk(batches=batches[:-1])
+    hist = _history(c)[0]
     for i, b in enumerate(batches):
-        if _is_rdd_entry(b):
+        nxt_same = i + 1 < len(batches) and _is_rdd_entry(batches[i + 1]) and batches[i + 1][0] == 9
+        if b is None:
+            yield mk(batches=batches[:i] + batches[i + 1:])
+        elif _is_rdd_entry(b):
             form, n, data = b
-            yield mk(batches=batches[:i] + [_entry_data(b)] + batches[i + 1:])      # the same data as a plain list
+            if form == 9:
+                yield mk(batches=batches[:i] + batches[i + 1:])
+                continue
+            if nxt_same:
+                continue
+            yield mk(batches=batches[:i] + [hist[i]] + batches[i + 1:])      # the same data as a plain list
             if n > 2:
                 yield mk(batches=batches[:i] + [(form, n - 1, data)] + batches[i + 1:])
             for j in range(len(data)):
                 yield mk(batches=batches[:i] + [(form, n, data[:j] + data[j + 1:])] + batches[i + 1:])
-        else:
+        elif not nxt_same:
             for j in range(len(b)):
                 yield mk(batches=batches[:i] + [b[:j] + b[j + 1:]] + batches[i + 1:])
     if w > 1:
